@@ -309,8 +309,10 @@ Proof. unfold primary_mode. cbn. constructor; [apply run_pass_wf | apply passes_
 
 Lemma file_based_mode_wf E base fl : outcome_wf E (file_based_mode E base fl).
 Proof.
-  unfold file_based_mode. destruct fl as [[| s l] |]; cbn; try constructor.
-  destruct (group_files _ _); cbn; [constructor | apply passes_of_groups_wf].
+  unfold file_based_mode. destruct fl as [fl |]; [| cbn; constructor].
+  destruct fl as [| s l]; [cbn; constructor |].
+  destruct (group_files _ _) as [| g0 g]; [cbn; constructor |].
+  cbn [outcome_wf]. apply passes_of_groups_wf.
 Qed.
 
 Lemma route_wf E cwd ov rn : outcome_wf E (route E cwd ov rn).
@@ -400,7 +402,7 @@ Qed.
 Lemma dotdot_to_root base n rest : (length base <= n)%nat ->
   lexnorm (raw_of_path base ++ repeat SUp n ++ raw_of_path rest) = rest.
 Proof.
-  intro H. unfold lexnorm. rewrite !lexnorm_acc_app. rewrite lexnorm_acc_names. cbn [app].
+  intro H. unfold lexnorm. rewrite !lexnorm_acc_app. rewrite (lexnorm_acc_names [] base). cbn [app].
   rewrite lexnorm_acc_ups by exact H. now rewrite lexnorm_acc_names.
 Qed.
 
@@ -456,8 +458,8 @@ Proof.
   - intros d' Hd'. unfold outside. destruct bnd as [b |]; [| reflexivity].
     apply negb_false_iff. eapply prefixb_trans; eassumption.
   - intros d' Hk. pose proof Hk as Hk0. apply root_at_spec in Hk0 as (_ & Hr & _). split; [exact Hr |].
-    unfold pick_skipping_submodules. unfold worktree_root_at in Hk. rewrite Hk. now rewrite Hsub.
-  - intros d' Hk. unfold pick_skipping_submodules. unfold worktree_root_at in Hk. now rewrite Hk.
+    unfold pick_skipping_submodules. rewrite Hk. now rewrite Hsub.
+  - intros d' Hk. unfold pick_skipping_submodules. now rewrite Hk.
 Qed.
 
 Lemma plain_file_in_wd E f q r :
@@ -569,3 +571,130 @@ Proof.
   - destruct (preset_name p); [| apply R]. destruct (preset_entry _ _) as [[ov ex] |]; [| apply R].
     destruct p; try apply R; (destruct (decode_preset _ _ _); [apply R | discriminate]).
 Qed.
+
+(* ================================================================= witnesses (nested layout)
+     /ws            plain directory (multi-repo workspace)
+     /ws/o          repository            /ws/o/a      file
+     /ws/o/i        nested repository     /ws/o/i/x    file
+     /ws/s          sibling repository    /ws/s/x      file
+     /etc/x         file in no repository                                          *)
+Definition w_ws : path := [[119; 115]].
+Definition w_outer := mkRepo (w_ws ++ [[111]]) KNormal.
+Definition w_inner := mkRepo (w_ws ++ [[111]; [105]]) KNormal.
+Definition w_sib := mkRepo (w_ws ++ [[115]]) KNormal.
+Definition w_layout : layout := [w_outer; w_inner; w_sib].
+Definition w_files : list path :=
+  [w_ws ++ [[111]; [97]]; w_ws ++ [[111]; [105]; [120]]; w_ws ++ [[115]; [120]]; [[101; 116; 99]; [120]]].
+Definition w_dirs : list path := [[]; w_ws; r_root w_outer; r_root w_inner; r_root w_sib; [[101; 116; 99]]].
+(* no symbolic links: a path exists iff its lexical normal form is one of the files / directories *)
+Definition w_stat (p : rawpath) : fstat :=
+  let q := lexnorm p in
+  if existsb (path_eqb q) w_files then IsFile q
+  else if existsb (path_eqb q) w_dirs then IsDir q else Missing.
+Definition w_env (cwd : option path) : env :=
+  mkEnv w_layout cwd w_stat (fun _ => false) (fun _ => true) (fun _ => false) (fun _ => DErr EShape).
+
+Definition w_payload (rwd : str) (files : list str) : json :=
+  JObj [(v1_tag, JStr s_human); (s_rwd, JStr rwd); (s_will, JArr (map JStr files))].
+Definition s_ws_o : str := [47; 119; 115; 47; 111].          (* "/ws/o" *)
+Definition s_ws : str := [47; 119; 115].                      (* "/ws" *)
+Definition s_i_x : str := [105; 47; 120].                     (* "i/x" *)
+Definition s_abs_s_x : str := [47; 119; 115; 47; 115; 47; 120].   (* "/ws/s/x" *)
+Definition s_up_s_x : str := [46; 46; 47; 115; 47; 120].      (* "../s/x" *)
+Definition s_up_s_new : str := [46; 46; 47; 115; 47; 110].    (* "../s/n"  (does not exist) *)
+Definition q_i_x : path := w_ws ++ [[111]; [105]; [120]].
+Definition q_s_x : path := w_ws ++ [[115]; [120]].
+Definition q_o_a : path := w_ws ++ [[111]; [97]].
+
+(* K1: a file of the nested repository, reported with repo_working_dir = the outer repository, is
+   recorded nowhere although it belongs to a repository *)
+Lemma nested_dropped :
+  exists E j s q r,
+    decode_agent_v1 j = DOk (mkRun Human (Some s_ws_o) (Some [s]) None) /\
+    q = resolve E (absolutize (raw_of_path (workdir w_outer)) s) /\
+    innermost (e_layout E) q = Some r /\ e_run_fails E r = false /\ e_allowed E r = true /\
+    status_of (handle_checkpoint E PAgentV1 (HText (Some j))) = 0 /\
+    forall r', ~ recorded_in E (handle_checkpoint E PAgentV1 (HText (Some j))) q r'.
+Proof.
+  exists (w_env (Some (r_root w_outer))), (w_payload s_ws_o [s_i_x]), s_i_x, q_i_x, w_inner.
+  repeat split; try (vm_compute; reflexivity).
+  intros r' H. vm_compute in H. exact H.
+Qed.
+
+(* K2: every listed file lies outside the repository of repo_working_dir: its pass scans the whole work tree *)
+Lemma scope_collapse :
+  exists E j fs,
+    decode_agent_v1 j = DOk (mkRun Human (Some s_ws_o) (Some fs) None) /\
+    collapsed E w_outer (map (absolutize (raw_of_path (workdir w_outer))) fs) = true /\
+    exists st ps, handle_checkpoint E PAgentV1 (HText (Some j)) = Exit st ps /\
+                  In (mkPass w_outer ScopeAll false) ps.
+Proof.
+  exists (w_env (Some (r_root w_outer))), (w_payload s_ws_o [s_abs_s_x]), [s_abs_s_x].
+  split; [vm_compute; reflexivity |]. split; [vm_compute; reflexivity |].
+  eexists. eexists. split; [vm_compute; reflexivity |]. now left.
+Qed.
+
+(* K3 / K4: status *)
+Lemma status0_refuted_no_cwd : forall E p h, e_cwd E = None -> h <> HArgvNotUtf8 ->
+  handle_checkpoint E p h = Panicked /\ status_of (handle_checkpoint E p h) = 101.
+Proof.
+  intros E p h Hc Hh. unfold handle_checkpoint. rewrite Hc.
+  destruct h; try congruence; split; reflexivity.
+Qed.
+
+Lemma status0_refuted_argv : forall E p, status_of (handle_checkpoint E p HArgvNotUtf8) = 2.
+Proof. reflexivity. Qed.
+
+Lemma status0_refuted :
+  (exists E p h, h <> HArgvNotUtf8 /\ status_of (handle_checkpoint E p h) <> 0) /\
+  (exists E p h, e_cwd E <> None /\ status_of (handle_checkpoint E p h) <> 0).
+Proof.
+  split.
+  - exists (w_env None), PAgentV1, HNone. split; [discriminate | vm_compute; discriminate].
+  - exists (w_env (Some w_ws)), PAgentV1, HArgvNotUtf8. split; [discriminate | vm_compute; discriminate].
+Qed.
+
+(* ---- non-vacuity *)
+Definition w_all4 : list str := [[111; 47; 97]; [111; 47; 105; 47; 120]; s_abs_s_x; [47; 101; 116; 99; 47; 120]].
+
+(* multi-repo workspace (cwd = /ws, not a repository): each file goes to its innermost repository,
+   the file in no repository goes nowhere *)
+Lemma ex_workspace :
+  records (w_env (Some w_ws)) (handle_checkpoint (w_env (Some w_ws)) PAgentV1 (HText (Some (w_payload s_ws w_all4))))
+  = [(w_sib, q_s_x); (w_inner, q_i_x); (w_outer, q_o_a)].
+Proof. vm_compute. reflexivity. Qed.
+
+(* `../s/x` from the outer repository: recorded in the sibling, not in the outer one *)
+Lemma ex_dotdot :
+  records (w_env (Some (r_root w_outer)))
+          (handle_checkpoint (w_env (Some (r_root w_outer))) PAgentV1 (HText (Some (w_payload s_ws_o [[97]; s_up_s_x]))))
+  = [(w_outer, q_o_a); (w_sib, q_s_x)].
+Proof. vm_compute. reflexivity. Qed.
+
+(* the hypotheses of complete_file_based are satisfiable (nested repository, workspace mode) *)
+Lemma ex_complete_hyps :
+  let E := w_env (Some w_ws) in
+  let base := raw_of_path w_ws in
+  let f := absolutize base [111; 47; 105; 47; 120] in
+  e_stat E f = IsFile q_i_x /\ resolve E (parent_raw f) = removelast q_i_x /\ q_i_x <> [] /\
+  worktree_root_at (e_layout E) q_i_x = None /\ innermost (e_layout E) q_i_x = Some w_inner /\
+  is_submodule w_inner = false /\ prefixb (resolve E base) (r_root w_inner) = true.
+Proof. vm_compute. repeat split; try reflexivity. discriminate. Qed.
+
+Lemma ex_decoder :
+  decode_agent_v1 (w_payload s_ws_o [s_i_x]) = DOk (mkRun Human (Some s_ws_o) (Some [s_i_x]) None) /\
+  decode_agent_v1 (JArr [JStr s_human; JStr s_ws_o; JNull]) = DOk (mkRun Human (Some s_ws_o) None None) /\
+  decode_agent_v1 (JArr [JStr s_human; JStr s_ws_o]) = DErr ELength /\
+  decode_agent_v1 (JObj [(v1_tag, JNum (NumU 0)); (s_rwd, JStr s_ws_o)]) = DErr ETagType /\
+  decode_agent_v1 (JObj [(v1_tag, JStr s_human); (s_rwd, JNull)]) = DErr EType /\
+  decode_agent_v1 (JObj [(v1_tag, JStr s_human); (s_rwd, JStr s_ws); (s_rwd, JStr s_ws)]) = DErr EDupField /\
+  decode_agent_v1 (JObj [(v1_tag, JStr s_ai_agent); (s_rwd, JStr s_ws)]) = DErr EMissingField.
+Proof. vm_compute. repeat split; reflexivity. Qed.
+
+Lemma routing_hc : forall E p h q r,
+  recorded_in E (handle_checkpoint E p h) q r -> innermost (e_layout E) q = Some r.
+Proof. intros E p h. exact (routing E (handle_checkpoint E p h)). Qed.
+
+Lemma orphans_hc : forall E p h q,
+  innermost (e_layout E) q = None -> forall r, ~ recorded_in E (handle_checkpoint E p h) q r.
+Proof. intros E p h. exact (orphans_ignored E (handle_checkpoint E p h)). Qed.
